@@ -142,6 +142,15 @@ func c12HandScenarios() []*c12Scen {
 		c12Version{"style-arg", c12HandSetup("\t// :skip In\n\tOuter(*SA) *DA\n\t// :style arg\n\tInner(*SI) *DI\n")},
 		c12Version{"recv", c12HandSetup("\t// :skip In\n\tOuter(*SA) *DA\n\t// :recv s\n\tInner(*SI) *DI\n")},
 	))
+	// imported field types that do not match: if the loader loses the imports of the package
+	// (which a NUL byte in the stale file causes) the two fields look assignable
+	h3 := mk("himp1",
+		c12HandSetup("\tConv(*SB) *DB\n"),
+		c12Version{"rename-method", c12HandSetup("\tConvOld(*SB) *DB\n")},
+		c12Version{"toggle-err", c12HandSetup("\tConv(*SB) (*DB, error)\n")},
+	)
+	h3.Files["himp1/types.go"] = "package sc\n\nimport \"vb/ext\"\n\ntype SB struct {\n\tK ext.MInt\n\tC int\n}\ntype DB struct {\n\tK ext.MStr\n\tC int\n}\n"
+	r = append(r, h3)
 	return r
 }
 
@@ -744,7 +753,7 @@ func c12FirstDiff(a, b []byte) int {
 // RunC12 is the check for C12.
 func RunC12(e *core.Env) int {
 	rep := core.NewReport(e, "fault_enumeration",
-		"scenarios = seeded broad setups (accepted ones with >=2 methods, plus rejected ones) + 2 fixed setups whose generated function is a :conv target, each in two directory layouts "+
+		"scenarios = seeded broad setups (accepted ones with >=2 methods, plus rejected ones) + 3 fixed setups (a generated function used as :conv target; mismatching imported field types), each in two directory layouts "+
 			"(generator's names / output file sorting first in its directory) and four invocation forms (package dir + relative path, module root + relative path, -out <name>, absolute path); "+
 			"pre-states of the output path = empty, clean output (fixpoint), outputs of older versions of the setup (method dropped/renamed, error result toggled, notation changed, a different setup of the same package) whole and truncated, "+
 			"output(S) truncated at every byte (thorough) or at the first 40 bytes + every byte around the package clause + every 16th byte + last 10 (quick), single-bit flips, broken Go, redeclaring Go, hostile file headers, other package clauses, binary garbage; "+
